@@ -135,6 +135,28 @@ def witness_stage(ctx):
     ctx.extra["F13_witness_surveys_of_site0"] = sum(1 for v in w13.visits if v["site"] == 0 and v["outcome"] == "c")
 
 
+def proportion_grid_stage(ctx):
+    """the real _filter_candidates_by_proportion on pools of n real planners for every decimal
+    proportion k/100, n <= 200 (threshold first) and counter c <= 200 (proportion first, pool of 200
+    and of 5): kept count = min(ceil(k*n/100), |pool|) exactly, kept = prefix, in-pool flags follow"""
+    from harness.adapters import followup as F
+    cells = [(1, k, n, 0) for k in range(101) for n in range(201)]
+    cells += [(0, k, 200, c) for k in range(101) for c in range(201)]
+    cells += [(0, k, 5, c) for k in range(101) for c in range(0, 201, 7)]
+    for (tf, k, n, c, kept, prefix_ok) in F.proportion_grid(cells):
+        ctx.evaluations += 1
+        base = n if tf else c
+        exact = min(-((-base * k) // 100), n)
+        if kept != exact:
+            ctx.violate("C09:proportion:decimal-grid:" + ("more" if kept > exact else "fewer"),
+                        "the candidate filter keeps %d of %d for proportion %d/100 (exact ceiling %d)" % (kept, n, k, exact),
+                        {"proportion_grid": {"thrFirst": bool(tf), "k": k, "n": n, "c": c, "kept": kept, "exact": exact}})
+        elif not prefix_ok:
+            ctx.violate("C09:proportion:decimal-grid:not-prefix", "kept candidates are not the largest / flags not updated",
+                        {"proportion_grid": {"thrFirst": bool(tf), "k": k, "n": n, "c": c}})
+    ctx.count("proportion_grid_cells", len(cells))
+
+
 # ------------------------------------------------------------------------------------------------
 # whole simulations
 # ------------------------------------------------------------------------------------------------
@@ -219,8 +241,11 @@ def check_trace(cfg, tr):
                         viol.append(("C09:whole:flag-without-screening", "flag without a completed screening survey of that "
                                      "site on the recorded detection day", {"event": ev, "flag": info}))
                     if site not in outstanding and tagday is not None and tagday > latest:
-                        viol.append((FC.SIG_STALE_POOLED, "a site was flagged on a screening made before its latest tagging "
-                                     "survey", {"event": ev, "flag": info}))
+                        pool_route = entry == "add_to_survey_queue"     # instant route uses add_previous_queued...
+                        viol.append((FC.SIG_STALE_POOLED if pool_route else FC.SIG_STALE_INSTANT,
+                                     "a site was flagged on a screening made before its latest tagging survey",
+                                     {"event": ev, "flag": info}))
+                info["bys"] = sorted(set(outstanding.get(site, {}).get("bys", [])) | {by})
                 outstanding[site] = info
         elif kind == "flagupd":
             in_update[ev[2]] = False
@@ -229,9 +254,11 @@ def check_trace(cfg, tr):
             stats["snapshots"] += 1
             sites = [x[1] for x in ev[3]]
             dup = sorted({s for s in sites if sites.count(s) > 1})
-            if dup:
-                sig = FC.SIG_DUP2 if len(screening) > 1 else "C09:whole:one-outstanding"
-                viol.append((sig, "a site has more than one outstanding follow-up request", {"event": ev[:3], "sites": dup}))
+            for ds in dup:
+                bys = outstanding.get(ds, {}).get("bys", [])
+                sig = FC.SIG_DUP2 if len(bys) > 1 else "C09:whole:one-outstanding"
+                viol.append((sig, "a site has more than one outstanding follow-up request",
+                             {"event": ev[:3], "site": ds, "flagged_by": bys}))
     return viol, stats
 
 
@@ -266,13 +293,14 @@ def run(ctx):
     ctx.rule = ("history = (sites, screening-method parameters, follow-up crews/workday/survey times, per day: "
                 "screenings (method, site, rate) and tagging surveys of other methods); day order as in "
                 "Program.do_daily_program_deployment; grid: every combination of filter x priority x "
-                "proportion{0,1/4,1/2,3/4,1} x delay{0,1,3} x reporting delay{0,2} x instant threshold (mobile) and "
+                "proportion{0,1/4,1/2,3/4,1 (+ decimal ones in the random part)} x delay{0,1,3} x reporting delay{0,2} x instant threshold (mobile) and "
                 "priority x proportion x delay x reporting delay x instant threshold x small window x large threshold "
                 "(stationary), each with its own random histories, + random single-method, two-method and long "
                 "histories; non-trivial = at least one site flagged; distinct by (methods, kind, filter/window, "
                 "priority, proportion, delay, reporting delay, instant?, routes and outcomes that occurred)")
     core.lean_stage(ctx, MODULE, FILE, drivers=["drv_followup"])
     witness_stage(ctx)
+    proportion_grid_stage(ctx)
     hists = build_histories(ctx)
     chunk = 2000
     sampled = 0
@@ -302,6 +330,14 @@ def replay(ctx, data):
                 print(l, "->", i)
         if w.crash:
             print("real code stopped:", w.crash)
+    elif "proportion_grid" in inp:
+        from harness.adapters import followup as F
+        g = inp["proportion_grid"]
+        (tf, k, n, c, kept, prefix_ok) = F.proportion_grid([(int(g["thrFirst"]), g["k"], g["n"], g["c"])])[0]
+        exact = min(-((-(n if tf else c) * k) // 100), n)
+        print("proportion %d/100, pool %d, counter %d: kept %d, exact ceiling %d, prefix %s" % (k, n, c, kept, exact, prefix_ok))
+        if kept != exact or not prefix_ok:
+            ctx.violate("C09:proportion:decimal-grid", "kept count differs from the exact ceiling", g)
     elif "whole_run_cfg" in inp:
         from harness import wholerun
         res = wholerun.run_config(inp["whole_run_cfg"], debug=True, processes=1, trace=True)
